@@ -306,6 +306,32 @@ where
         let case = json!({"proposal": "IsotropicGaussian", "ty": ty, "std": std, "integral": 2});
         close(ctx, "C15:isotropic-logp-normalisation", "integral of exp(logp) over R^2 (trapezoid, d=2)", i2, 1.0, 5e-3, &case);
     }
+    // the public `std` field may be re-tuned after construction: logp must stay the density of what sample() draws
+    for (s1, s2) in [(1.0, 2.0), (0.5, 1e-3), (2.0, 0.25), (1e3, 1.0)] {
+        for d in [1usize, 3] {
+            let mut prop = IsotropicGaussian::<T>::new(f(s1)).set_seed(5);
+            prop.std = f(s2);
+            let s2r = f(s2).to_f64().unwrap();
+            let from: Vec<T> = (0..d).map(|k| f(0.1 * k as f64)).collect();
+            let to: Vec<T> = (0..d).map(|k| f(0.1 * k as f64 + 0.7 * s2r)).collect();
+            let sq: f64 = from.iter().zip(to.iter()).map(|(a, b)| (b.to_f64().unwrap() - a.to_f64().unwrap()).powi(2)).sum();
+            let want = -(d as f64) / 2.0 * (2.0 * PI * s2r * s2r).ln() - sq / (2.0 * s2r * s2r);
+            let got = prop.logp(&from, &to).to_f64().unwrap();
+            let case = json!({"proposal": "IsotropicGaussian", "ty": ty, "constructed_with_std": s1, "std_assigned_afterwards": s2, "d": d});
+            ctx.evals(1);
+            close(ctx, "C15:isotropic-logp-after-retune", "IsotropicGaussian::logp after assigning the public std field", got, want, tol_rel * (want.abs() + 1.0) * 8.0, &case);
+            // and sample() scales with the re-tuned std
+            let z: Vec<f64> = prop.sample(&from).iter().zip(from.iter()).map(|(a, b)| a.to_f64().unwrap() - b.to_f64().unwrap()).collect();
+            let mut base = IsotropicGaussian::<T>::new(f(1.0)).set_seed(5);
+            let z1: Vec<f64> = base.sample(&from).iter().zip(from.iter()).map(|(a, b)| a.to_f64().unwrap() - b.to_f64().unwrap()).collect();
+            for k in 0..d {
+                if !((z[k] - s2r * z1[k]).abs() <= 64.0 * tol_rel * (s2r * z1[k]).abs().max(1e-3 * s2r) + 8.0 * tol_rel) {
+                    ctx.violation(Violation::new("C15:isotropic-sample-after-retune", format!("sample() does not use the re-tuned std {s2}: noise {} vs {}", z[k], s2r * z1[k]), case.clone()));
+                    break;
+                }
+            }
+        }
+    }
     // sample(): location-scale family of one base stream; reproducible after set_seed
     for seed in [0u64, 7, 42] {
         for d in [1usize, 3, 32] {
@@ -376,9 +402,23 @@ where
 pub fn run(ctx: &Ctx) {
     ctx.rule("finite lattice: means {-2,0,1.5}^2-subset x 5 SPD covariances (cond up to 1e4) x 7x7 points x batch sizes {1,2,3,64} x {f32,f64} scalars x {NdArray<f32>,NdArray<f64>} backends; Rosenbrock (3 parameter pairs, 7x7 lattice, ND for D=2..5); IsotropicGaussian std in {1e-3,0.5,1,2,1e3}, d in {1,2,3,32}; closed-form f64 oracles; a case is distinct by its (target, parameters, point/batch) hash");
     let means = if ctx.tier.thorough() { vec![[0.0, 0.0], [-2.0, 1.5], [1.5, -2.0], [0.0, 1.0]] } else { vec![[0.0, 0.0], [-2.0, 1.5]] };
+    // every covariance also at tiny and large overall scale (standard deviations 1e-2 / 1e2; f64 additionally 1e-5)
+    let mut cov_list: Vec<([[f64; 2]; 2], bool)> = vec![];
+    for c in covs() {
+        cov_list.push((c, true));
+        for sc in [1e-4, 1e4] {
+            cov_list.push(([[c[0][0] * sc, c[0][1] * sc], [c[1][0] * sc, c[1][1] * sc]], true));
+        }
+        cov_list.push(([[c[0][0] * 1e-10, c[0][1] * 1e-10], [c[1][0] * 1e-10, c[1][1] * 1e-10]], false));
+    }
     for m in means.iter() {
-        for c in covs() {
+        for (c, also_f32) in cov_list.iter().cloned() {
             let g = G2 { mean: *m, cov: c };
+            if !also_f32 {
+                gaussian2d::<f64>(ctx, "f64", &g, TOL64);
+                diffable::<f64, BF64>(ctx, "f64/NdArray<f64>", &g);
+                continue;
+            }
             gaussian2d::<f32>(ctx, "f32", &g, TOL32);
             gaussian2d::<f64>(ctx, "f64", &g, TOL64);
             diffable::<f32, BF32>(ctx, "f32/NdArray<f32>", &g);
